@@ -162,6 +162,51 @@ def main(tier, seed):
                               signature=("unrecognized_char_ignored" if cls == "unrecognized_character" and not errs else None))
             elif len(samples) < 4 and cls in ("illegal_character", "bad_identifier", "undefined_type", "non_ascii"):
                 samples.append({"class": cls, "diag": [d[3] for d in errs if expect["quoted"] in d[3]][0][-90:]})
+    # ---- every call site passes as many arguments as the message of the diagnostic has conversions (static scan of /repo)
+    def split_args(txt):
+        out_, d_, cur_ = [], 0, ""
+        for ch in txt:
+            if ch in "([{":
+                d_ += 1
+            if ch in ")]}":
+                d_ -= 1
+            if ch == "," and d_ == 0:
+                out_.append(cur_.strip())
+                cur_ = ""
+            else:
+                cur_ += ch
+        if cur_.strip():
+            out_.append(cur_.strip())
+        return out_
+    etxt = open(os.path.join(REPO, "src", "express", "error.c"), errors="replace").read()
+    nconv = {}
+    for m_ in re.finditer(r'\[(\w+)\]\s*=\s*\{\s*SEVERITY_\w+\s*,\s*((?:"(?:[^"\\]|\\.)*"\s*)+)', etxt):
+        fmt_ = "".join(re.findall(r'"((?:[^"\\]|\\.)*)"', m_.group(2)))
+        nconv[m_.group(1)] = len(re.findall(r"%(?!%)[-0-9.*l]*[sdcuxfg]", fmt_))
+    import glob as _glob
+    srcs = sorted(set(_glob.glob(os.path.join(REPO, "src", "express", "*.c")) + _glob.glob(os.path.join(REPO, "src", "express", "*.y")) +
+                      _glob.glob(os.path.join(REPO, "src", "exp*", "*.c")) + _glob.glob(os.path.join(REPO, "src", "exp*", "*.cc")) +
+                      _glob.glob(os.path.join(REPO, "src", "exp2python", "src", "*.c"))))
+    hist["diagnostic_call_sites"] = 0
+    for fsrc in srcs:
+        t_ = re.sub(r"/\*.*?\*/", " ", open(fsrc, errors="replace").read(), flags=re.S)
+        for m_ in re.finditer(r"\b(ERRORreport(?:_with_symbol|_with_line)?)\s*\(", t_):
+            i_, d_ = m_.end(), 1
+            j_ = i_
+            while d_ and j_ < len(t_):
+                d_ += {"(": 1, ")": -1}.get(t_[j_], 0)
+                j_ += 1
+            a_ = split_args(t_[i_:j_ - 1])
+            if not a_ or a_[0] not in nconv:
+                continue
+            given = len(a_) - {"ERRORreport": 1, "ERRORreport_with_symbol": 2, "ERRORreport_with_line": 2}[m_.group(1)]
+            hist["diagnostic_call_sites"] += 1
+            evals += 1
+            if given < nconv[a_[0]]:          # an argument too many is ignored by printf; one too few is read from nowhere
+                oracle_fail += 1
+                res.violation("%s:%d raises %s with %d argument(s), its message has %d conversion(s): formatting it reads a missing or mistyped argument" %
+                              (os.path.relpath(fsrc, REPO), t_.count("\n", 0, m_.start()) + 1, a_[0], given, nconv[a_[0]]),
+                              {"theorem_or_correspondence": "static scan of diagnostic call sites against src/express/error.c"}, found_input=False)
     # ---- (ii) warning switches
     ids = class_ids()
     for variant, extra in (("warnings_only", ""), ("with_error", "ENTITY z;\n  bad : nosuch_type_xyz;\nEND_ENTITY;")):
